@@ -9,7 +9,10 @@
              PerRun  = opened once before the main loop, header once (ReadList; the repair of F9),
      posrule ZeroBased = `position` column of the changed-genotype list is variant.position (current code),
              OneBased  = position + 1 = VCF POS (the repair; what the other two lists print).
-   run_current = run PerCall PerCall ZeroBased,  run_repaired = run PerRun PerRun OneBased. *)
+     emptyrule Strict = find_recombination asserts len(positions) == len(recombcost) also for a family without
+                        accessible position, where both cost computers return [0] (current code: the run dies),
+               EmptyOk = no event for such a family (the repair).
+   run_current = run PerCall PerCall ZeroBased Strict,  run_repaired = run PerRun PerRun OneBased EmptyOk. *)
 From Coq Require Import ZArith List Bool Arith.
 From WH.Model Require Import AuxReports.
 From WH.Proofs Require Import AuxReportsProofs.
@@ -22,8 +25,8 @@ Open Scope Z_scope.
    concatenation, over ALL processed (chromosome, family) instances in processing order, of what
    ReadList.write produces for that instance; the components passed to a call map the members of the
    family being processed to that family's components. *)
-Theorem C20_read_list_covers_run : forall gr rr pr o ids vs cs out,
-  o_reads o = true -> run gr rr pr o ids vs cs = Some out ->
+Theorem C20_read_list_covers_run : forall gr rr pr er o ids vs cs out,
+  o_reads o = true -> run gr rr pr er o ids vs cs = Some out ->
   exists calls,
     Forall2 (fun ci es => exists sc, read_entries ids sc (snd ci) = Some es /\
                forall s, In s (map fst (inst_members (snd ci))) -> lookup s sc = Some (i_comps (snd ci)))
@@ -34,18 +37,18 @@ Print Assumptions C20_read_list_covers_run.
 
 (* Repaired writer rule (file opened once per run): the recombination list is the header followed by the
    events of every processed (chromosome, family). *)
-Theorem C20_recombination_list_covers_run_repaired : forall gr pr o ids vs cs out,
-  o_recs o = true -> run gr PerRun pr o ids vs cs = Some out ->
+Theorem C20_recombination_list_covers_run_repaired : forall gr pr er o ids vs cs out,
+  o_recs o = true -> run gr PerRun pr er o ids vs cs = Some out ->
   exists calls,
-    Forall2 (fun ci es => inst_rec_entries (c_name (fst ci)) (snd ci) = Some es) (instances cs) calls /\
+    Forall2 (fun ci es => inst_rec_entries er (c_name (fst ci)) (snd ci) = Some es) (instances cs) calls /\
     out_recs out = Some (Header :: map Entry (concat calls)).
 Proof. exact recombination_list_covers_run_repaired. Qed.
 Print Assumptions C20_recombination_list_covers_run_repaired.
 
 (* Repaired writer rule: the changed-genotype list is the header followed by the changes of every
    processed chromosome. *)
-Theorem C20_changed_genotype_list_covers_run_repaired : forall rr pr o ids vs cs out,
-  o_gts o = true -> run PerRun rr pr o ids vs cs = Some out ->
+Theorem C20_changed_genotype_list_covers_run_repaired : forall rr pr er o ids vs cs out,
+  o_gts o = true -> run PerRun rr pr er o ids vs cs = Some out ->
   exists calls,
     Forall2 (fun c es => exists wr,
                write_records pr (c_name c) vs (targets_of (c_insts c)) None (c_records c) = Some wr /\
@@ -62,7 +65,7 @@ Theorem C20_lists_cover_run_refuted :
   exists o ids vs cs out,
     run_wf ids cs = true /\ run_current o ids vs cs = Some out /\
     ~ (exists calls,
-         Forall2 (fun ci es => inst_rec_entries (c_name (fst ci)) (snd ci) = Some es) (instances cs) calls /\
+         Forall2 (fun ci es => inst_rec_entries current_emptyrule (c_name (fst ci)) (snd ci) = Some es) (instances cs) calls /\
          out_recs out = Some (Header :: map Entry (concat calls))) /\
     ~ (exists calls,
          Forall2 (fun c es => exists wr,
@@ -75,16 +78,16 @@ Print Assumptions C20_lists_cover_run_refuted.
 
 (* What the current code leaves behind, for every run: the entries of the LAST call only (no file at all if
    nothing was processed). *)
-Theorem C20_recombination_list_current_last_only : forall gr pr o ids vs cs out,
-  o_recs o = true -> run gr PerCall pr o ids vs cs = Some out ->
+Theorem C20_recombination_list_current_last_only : forall gr pr er o ids vs cs out,
+  o_recs o = true -> run gr PerCall pr er o ids vs cs = Some out ->
   exists calls,
-    Forall2 (fun ci es => inst_rec_entries (c_name (fst ci)) (snd ci) = Some es) (instances cs) calls /\
+    Forall2 (fun ci es => inst_rec_entries er (c_name (fst ci)) (snd ci) = Some es) (instances cs) calls /\
     out_recs out = match rev calls with [] => None | es :: _ => Some (Header :: map Entry es) end.
 Proof. exact recombination_list_current_last_only. Qed.
 Print Assumptions C20_recombination_list_current_last_only.
 
-Theorem C20_changed_genotype_list_current_last_only : forall rr pr o ids vs cs out,
-  o_gts o = true -> run PerCall rr pr o ids vs cs = Some out ->
+Theorem C20_changed_genotype_list_current_last_only : forall rr pr er o ids vs cs out,
+  o_gts o = true -> run PerCall rr pr er o ids vs cs = Some out ->
   exists calls,
     Forall2 (fun c es => exists wr,
                write_records pr (c_name c) vs (targets_of (c_insts c)) None (c_records c) = Some wr /\
@@ -98,8 +101,8 @@ Print Assumptions C20_changed_genotype_list_current_last_only.
 (* Every line of the read list is a selected read r of a processed (chromosome, family) instance i, with the
    haplotype h the partitioning assigns to it, the sample it belongs to (a member of that family), its number
    of variants, first and last variant position (1-based), and phase set = component of its first variant + 1. *)
-Theorem C20_read_list_entries : forall gr rr pr o ids vs cs out lines e,
-  run gr rr pr o ids vs cs = Some out -> run_wf ids cs = true ->
+Theorem C20_read_list_entries : forall gr rr pr er o ids vs cs out lines e,
+  run gr rr pr er o ids vs cs = Some out -> run_wf ids cs = true ->
   out_reads out = Some lines -> In (Entry e) lines ->
   exists c i r h v0 rest b,
     In c cs /\ c_selected c = true /\ In i (c_insts c) /\
@@ -130,16 +133,16 @@ Print Assumptions C20_changes_are_diffs_per_record.
 (* Repaired rules (file opened once per run, position column = VCF POS = 0-based position + 1): the
    changed-genotype list is the header followed by exactly the differences between input and output VCF over
    all processed chromosomes. *)
-Theorem C20_changes_are_diffs_repaired : forall rr o ids vs cs out,
-  o_gts o = true -> run PerRun rr OneBased o ids vs cs = Some out -> run_wf ids cs = true ->
+Theorem C20_changes_are_diffs_repaired : forall rr er o ids vs cs out,
+  o_gts o = true -> run PerRun rr OneBased er o ids vs cs = Some out -> run_wf ids cs = true ->
   length (out_vcf out) = length cs /\
   out_gts out = Some (Header :: map Entry (run_diffs 1 cs (out_vcf out))).
 Proof. exact (fun rr => changes_are_diffs_run rr OneBased). Qed.
 Print Assumptions C20_changes_are_diffs_repaired.
 
 (* The same for any position rule: the listed position is the 0-based position + pos_shift. *)
-Theorem C20_changes_are_diffs_upto_position : forall rr pr o ids vs cs out,
-  o_gts o = true -> run PerRun rr pr o ids vs cs = Some out -> run_wf ids cs = true ->
+Theorem C20_changes_are_diffs_upto_position : forall rr pr er o ids vs cs out,
+  o_gts o = true -> run PerRun rr pr er o ids vs cs = Some out -> run_wf ids cs = true ->
   length (out_vcf out) = length cs /\
   out_gts out = Some (Header :: map Entry (run_diffs (pos_shift pr) cs (out_vcf out))).
 Proof. exact changes_are_diffs_run. Qed.
@@ -149,15 +152,15 @@ Print Assumptions C20_changes_are_diffs_upto_position.
    the differences at their VCF positions (every entry points one base before the changed call). *)
 Theorem C20_changes_are_diffs_refuted :
   exists o ids vs cs out,
-    run_wf ids cs = true /\ run PerRun PerRun current_posrule o ids vs cs = Some out /\
+    run_wf ids cs = true /\ run PerRun PerRun current_posrule current_emptyrule o ids vs cs = Some out /\
     out_gts out <> Some (Header :: map Entry (run_diffs 1 cs (out_vcf out))).
 Proof. exact changes_are_diffs_refuted. Qed.
 Print Assumptions C20_changes_are_diffs_refuted.
 
 (* Frame: calls on chromosomes that are not processed, and calls of samples that are not being phased, keep
    their genotype (so the differences above are ALL differences between input and output VCF). *)
-Theorem C20_output_frame : forall gr rr pr o ids vs cs out,
-  run gr rr pr o ids vs cs = Some out -> run_wf ids cs = true ->
+Theorem C20_output_frame : forall gr rr pr er o ids vs cs out,
+  run gr rr pr er o ids vs cs = Some out -> run_wf ids cs = true ->
   Forall2 (fun c ovc =>
              Forall2 (fun r oc => forall s, c_selected c = false \/ ~ In s (target_names c) ->
                                  lookup s oc = option_map gcode (lookup s (v_gts r)))
@@ -169,8 +172,8 @@ Print Assumptions C20_output_frame.
 (* Without --distrust-genotypes the solver's super-reads reproduce the input genotypes (hypothesis
    superreads_conform: C01/C05); then, under every writer rule, no change is listed and no genotype of the
    output VCF differs from the input. *)
-Theorem C20_no_changes_without_distrust : forall gr rr pr o ids vs cs out,
-  run gr rr pr o ids vs cs = Some out ->
+Theorem C20_no_changes_without_distrust : forall gr rr pr er o ids vs cs out,
+  run gr rr pr er o ids vs cs = Some out ->
   (forall c, In c cs -> c_selected c = true -> superreads_conform (targets_of (c_insts c)) (c_records c)) ->
   (forall lines e, out_gts out = Some lines -> ~ In (Entry e) lines) /\
   Forall2 (fun c ovc => Forall2 (fun r oc => forall s, lookup s oc = option_map gcode (lookup s (v_gts r)))
@@ -185,8 +188,8 @@ Print Assumptions C20_no_changes_without_distrust.
    that family with no variant of the set between them, at which the trio's transmission values ta, tb
    differ; the four haplotype columns are their paternal/maternal bits and the cost is the recombination cost
    at the second variant. *)
-Theorem C20_recombinations_within_set : forall gr rr pr o ids vs cs out lines e,
-  run gr rr pr o ids vs cs = Some out -> run_wf ids cs = true ->
+Theorem C20_recombinations_within_set : forall gr rr pr er o ids vs cs out lines e,
+  run gr rr pr er o ids vs cs = Some out -> run_wf ids cs = true ->
   out_recs out = Some lines -> In (Entry e) lines ->
   exists c i k child father mother b ta ca tb cb,
     In c cs /\ c_selected c = true /\ In i (c_insts c) /\
@@ -207,12 +210,22 @@ Print Assumptions C20_recombinations_within_set.
 (* ================================================================ the run completes *)
 (* With recombination-cost vectors as long as the position lists (and components within the accessible
    positions) write_recombination_list never fails on an instance. *)
-Theorem C20_recombination_entries_total : forall chromname i,
+Theorem C20_recombination_entries_total : forall er chromname i,
   length (i_tv i) = length (i_positions i) -> length (i_positions i) = length (i_costs i) ->
   (forall pc, In pc (i_comps i) -> In (fst pc) (i_positions i)) ->
-  exists es, inst_rec_entries chromname i = Some es.
+  exists es, inst_rec_entries er chromname i = Some es.
 Proof. exact inst_rec_entries_total. Qed.
 Print Assumptions C20_recombination_entries_total.
+
+(* Repaired find_recombination (no event for a family without accessible position): with the cost vectors the
+   cost computers return (length max 1 #positions) write_recombination_list never fails on an instance. *)
+Theorem C20_recombination_entries_total_repaired : forall chromname i,
+  length (i_tv i) = length (i_positions i) ->
+  length (i_costs i) = Nat.max 1 (length (i_positions i)) ->
+  (forall pc, In pc (i_comps i) -> In (fst pc) (i_positions i)) ->
+  exists es, inst_rec_entries EmptyOk chromname i = Some es.
+Proof. exact inst_rec_entries_total_repaired. Qed.
+Print Assumptions C20_recombination_entries_total_repaired.
 
 (* CURRENT cost computers (third finding): both return a vector of length max 1 (#positions), so a family
    without accessible variant trips find_recombination's assertion: the run dies exactly when
@@ -283,5 +296,11 @@ Example C20_example_total :
   length (i_tv wit_instA) = length (i_positions wit_instA) /\
   length (i_positions wit_instA) = length (i_costs wit_instA) /\
   forallb (fun pc => existsb (Z.eqb (fst pc)) (i_positions wit_instA)) (i_comps wit_instA) = true /\
-  inst_rec_entries 10 wit_instA = Some [mkCE 1 10 200 300 0 1 0 0 6].
+  inst_rec_entries current_emptyrule 10 wit_instA = Some [mkCE 1 10 200 300 0 1 0 0 6].
 Proof. vm_compute; auto. Qed.
+
+(* the crash witness completes under the repaired rules (header-only recombination list) *)
+Example C20_example_empty_family_repaired :
+  exists out, run_repaired (mkOpts true true true) wit_ids wit_samples wit_empty_cs = Some out /\
+    out_recs out = Some [Header].
+Proof. eexists; split; vm_compute; reflexivity. Qed.
